@@ -9,7 +9,13 @@ Correspondence (implementation vs the Lean model FV/Model/Force.lean run at Floa
   * `wl`, `tia`, `cost` — wire length, total disc overlap, cost at arbitrary states;
   * `force`   — force_algorithm on short runs: selected kappa and returned centres;
   * `argmin`  — the first-strict-minimum choice on the cost table recomputed from the implementation;
-  * `clamp`   — exact (Q) and float clamp on scalar triples.
+  * `clamp`   — exact (Q) and float clamp on scalar triples;
+  * `visualize` — fruchterman_reingold_layout / force_algorithm with `visualize` set (centres written back before the loop and
+                after every iteration, then plotted; the plot re-assigns the centre of modules with rectangles): every frame
+                and the result vs the model (`layoutvis` / `forcevis`), result bit-identical to the plain run, with the real
+                get_floorplan_plot on part of the cases and a recording stand-in on the others;
+  * `tia`     — total_intersection_area at arbitrary states (missing centres, coincident / tangent discs) vs the model, whose
+                disc-overlap function is the C17 model itself (composition of the two models).
 Spec on the implementation's own output (long runs, no model involved): every centre finite and inside the
 die, fixed modules not moved (<= 4 ulp of max(|c|, size/2): `c - s + s`), nothing but centres changed,
 determinism (two runs bit-identical), and for force_algorithm: returned layout = layout(kappa*) where kappa*
@@ -35,8 +41,11 @@ TRUSTED = [
     "checked by this correspondence run (single step at arbitrary states, short runs, cost, argmin), not proved",
     "theorems are over exact ordered fields with sqrt / ** / the disc-overlap function as uninterpreted parameters; "
     "IEEE rounding, finiteness and the <= 1 ulp drift of c - s + s are searched (long runs), never proved",
-    "circle_circle_intersection_area is an opaque parameter here (C17 owns it); copy.deepcopy is assumed faithful "
-    "(checked: two runs bit-identical)",
+    "circle_circle_intersection_area is an opaque parameter of the theorems (C17 owns it; composed with the real lens area in "
+    "C17.total_intersection_nonneg / total_intersection_twice_pairs); the driver instantiates it with the C17 model FV/Model/Disc.lean; "
+    "copy.deepcopy is assumed faithful (checked: two runs bit-identical)",
+    "get_floorplan_plot (tools/draw) is a parameter `plot` of the visualising model: assumed to change nothing but module centres "
+    "(it re-assigns the centre of modules with rectangles); runs with the real plot are checked through the clauses only",
     "harness (Python) and compiled Lean driver: parsing, canonicalisation, comparison",
 ]
 
@@ -383,7 +392,13 @@ def check_long_run(ctx: Ctx, inp: dict) -> None:
     before, before_c = snapshot(die), centres(die)
     twin = deepcopy(die)
     try:
-        out, imgs = FR.fruchterman_reingold_layout(die, inp["kappa"], max_iter=inp["iters"])
+        if inp.get("verbose"):  # the progress report must not change anything
+            import contextlib
+            import io
+            with contextlib.redirect_stdout(io.StringIO()):
+                out, imgs = FR.fruchterman_reingold_layout(die, inp["kappa"], verbose=True, max_iter=inp["iters"])
+        else:
+            out, imgs = FR.fruchterman_reingold_layout(die, inp["kappa"], max_iter=inp["iters"])
     except Exception as ex:
         ctx.spec_fail("operation-raised", inp, {"op": "fruchterman_reingold_layout", "exception": type(ex).__name__, "msg": str(ex)[:100]}, size=n)
         return
@@ -432,7 +447,13 @@ def check_force(ctx: Ctx, inp: dict, corr: bool) -> None:
         return
     twin = deepcopy(die)
     try:
-        out, _ = FR.force_algorithm(die, max_iter=iters)
+        if inp.get("verbose"):
+            import contextlib
+            import io
+            with contextlib.redirect_stdout(io.StringIO()):
+                out, _ = FR.force_algorithm(die, verbose=True, max_iter=iters)
+        else:
+            out, _ = FR.force_algorithm(die, max_iter=iters)
     except ValueError:
         ctx.count("tia-ValueError(C17)")
         return
@@ -490,6 +511,195 @@ def check_force(ctx: Ctx, inp: dict, corr: bool) -> None:
                 not all(close(a, b, tol) for a, b in zip(got, mcs)):
             ctx.disagree("force", inp, {"kappa": KAPPAS[best], "cost": table[best], "centres": str(got)[:300]},
                          {"kappa": mk, "cost": mc, "centres": str(mcs)[:300]}, size=n * 10 + iters)
+
+
+
+# ------------------------------------------------------------------ the visualize branches
+class FrameRecorder:
+    """wraps get_floorplan_plot as seen from fruchterman_reingold.py (optional observation point): records the centres the
+    plot is handed; then either draws nothing or (`passthrough`) calls the real plot — which is NOT read-only: it
+    re-assigns the centre of every module with rectangles that sits on a net (calculate_center_from_rectangles)."""
+
+    def __init__(self, passthrough: bool = False):
+        self.frames = []
+        self.ok = False
+        self.passthrough = passthrough
+
+    def __enter__(self):
+        self.real = getattr(FR, "get_floorplan_plot", None)
+        if callable(self.real):
+            def rec(netlist, *a, **kw):
+                self.frames.append([None if m.center is None else (m.center.x, m.center.y) for m in netlist.modules])
+                if self.passthrough:
+                    return self.real(netlist, *a, **kw)
+                return ("frame", len(self.frames))
+            FR.get_floorplan_plot = rec
+            self.ok = True
+        return self
+
+    def __exit__(self, *exc):
+        if self.ok:
+            FR.get_floorplan_plot = self.real
+        return False
+
+
+def check_visualize(ctx: Ctx, inp: dict, real_plot: bool = False) -> None:
+    """fruchterman_reingold_layout / force_algorithm with visualize is not None: the centres are written back before the loop
+    and after every iteration.  Same result as the plain run (bit-identical), same clauses, max_iter + 1 frames; every
+    frame compared with the model (`layoutvis` / `forcevis`)."""
+    try:
+        die = build(inp)
+        plain = build(inp)
+    except Exception as ex:
+        ctx.count("build-rejected:" + type(ex).__name__)
+        return
+    n, iters, kappa = len(inp["mods"]), inp["iters"], inp["kappa"]
+    force = inp.get("vis_force", False)
+    before, before_c = snapshot(die), centres(die)
+    line0 = inst_line(die)
+    size = max(die.width, die.height)
+
+    def run(d, vis):
+        if force:
+            return FR.force_algorithm(d, visualize=vis, max_iter=iters)
+        return FR.fruchterman_reingold_layout(d, kappa, visualize=vis, max_iter=iters)
+    try:
+        p_out, p_imgs = run(plain, None)
+    except ValueError:
+        ctx.count("tia-ValueError(C17)")
+        return
+    except Exception as ex:
+        ctx.spec_fail("operation-raised", inp, {"op": "plain run", "exception": type(ex).__name__, "msg": str(ex)[:100]}, size=n)
+        return
+    rec = FrameRecorder(passthrough=real_plot)
+    try:
+        with rec:
+            out, imgs = run(die, "x.gif")
+    except Exception as ex:
+        ctx.spec_fail("operation-raised", inp, {"op": ("force_algorithm" if force else "fruchterman_reingold_layout") + "(visualize=...)",
+                                                "exception": type(ex).__name__, "msg": str(ex)[:100]}, size=n)
+        return
+    ctx.case("visualize", (line0, kappa, iters, force, real_plot), any(not m.is_fixed for m in die.netlist.modules),
+             sample={"n": n, "iters": iters, "force": force, "real_plot": real_plot})
+    ctx.count("visualize:" + ("force" if force else "layout") + (":real-plot" if real_plot else ":recorded") + (":0-iterations" if iters == 0 else ""))
+    spec_on_output(ctx, inp, before, before_c, die, out, "visualize")
+    if centres(out) != centres(p_out):
+        ctx.spec_fail("visualize:same-result-as-plain-run", inp, {"visualize": str(centres(out))[:300], "plain": str(centres(p_out))[:300]}, size=n)
+    if p_imgs:
+        ctx.spec_fail("visualize:no-frames-without-visualize", inp, {"frames": len(p_imgs)}, size=n)
+    try:
+        nimgs = len(imgs)
+    except TypeError:
+        nimgs = None
+    if nimgs is not None and nimgs != iters + 1:
+        ctx.disagree("visualize:frame-count", inp, nimgs, iters + 1, size=n)
+    if not rec.ok:
+        if "observation point fruchterman_reingold.get_floorplan_plot not available" not in " ".join(ctx.notes):
+            ctx.notes.append("observation point fruchterman_reingold.get_floorplan_plot not available: frames not compared")
+        return
+    req = (f"F forcevis {iters} 1 {line0}" if force else f"F layoutvis {f2hex(kappa)} {iters} 1 {line0}")
+    rep = ctx.model([req])
+    if rep is None:
+        return
+    if rep[0].startswith("err") or rep[0] == "bad-op":
+        ctx.disagree("layoutvis", inp, "returned", rep[0], size=n)
+        return
+    parts = rep[0].split(" | ")
+    mframes = [parse_centres(x) for x in parts[2:]]
+    mfinal = parse_centres(parts[1])
+    tol = 1e-9 * size * (1 if iters <= 5 else 1e3)
+    same = len(mframes) == len(rec.frames) and all(
+        len(a) == len(b) and all(close(x, y, tol) for x, y in zip(a, b)) for a, b in zip(rec.frames, mframes))
+    if not same and not (force and iters > 3):
+        k = next((i for i, (a, b) in enumerate(zip(rec.frames, mframes)) if not (len(a) == len(b) and all(close(x, y, tol) for x, y in zip(a, b)))), None)
+        ctx.disagree("layoutvis", inp, {"frames": len(rec.frames), "first_differing": k, "impl": str(rec.frames[k] if k is not None and k < len(rec.frames) else None)[:300]},
+                     {"frames": len(mframes), "model": str(mframes[k] if k is not None and k < len(mframes) else None)[:300]}, size=n * 10 + iters)
+    elif not all(close(a, b, tol) for a, b in zip(centres(out), mfinal)) and not (force and iters > 3):
+        ctx.disagree("layoutvis", inp, str(centres(out))[:300], str(mfinal)[:300], size=n * 10 + iters)
+    # the frames are the states of the run: the last one is the result, the first one the input (missing centres at the die centre)
+    if rec.frames:
+        if rec.frames[-1] != centres(out):
+            ctx.spec_fail("visualize:last-frame-is-result", inp, {"last": str(rec.frames[-1])[:200], "result": str(centres(out))[:200]}, size=n)
+        for c0, f0 in zip(before_c, rec.frames[0]):
+            exp = c0 if c0 is not None else (die.width / 2, die.height / 2)
+            if f0 is None or ulps(f0[0], exp[0], die.width / 2) > 4 or ulps(f0[1], exp[1], die.height / 2) > 4:
+                ctx.spec_fail("visualize:first-frame-is-input", inp, {"first": str(rec.frames[0])[:200], "input": str(before_c)[:200]}, size=n)
+                break
+
+
+# ------------------------------------------------------------------ total_intersection_area
+def permuted(inp: dict, perm: list, cen: list) -> dict:
+    """the same state (centres `cen` as they are in the built die) with the modules listed in another order."""
+    out = dict(inp)
+    out["mods"] = [inp["mods"][i] for i in perm]
+    out["centers"] = [None if cen[i] is None else list(cen[i]) for i in perm]
+    out["history"] = "yaml"
+    return out
+
+
+def check_tia(ctx: Ctx, inp: dict) -> None:
+    """total_intersection_area at an arbitrary state: vs the model (composition with the C17 model: bit-equal is the rule),
+    and the clauses: non-negative, every unordered pair of distinct modules once per order, symmetric in the module order."""
+    try:
+        die = build(inp)
+    except Exception as ex:
+        ctx.count("build-rejected:" + type(ex).__name__)
+        return
+    mods = die.netlist.modules
+    n = len(mods)
+    line0 = inst_line(die)
+    try:
+        impl = float(FR.total_intersection_area(die))
+    except AssertionError:
+        impl = "err:AssertionError"
+    except Exception as ex:
+        ctx.spec_fail("operation-raised", inp, {"op": "total_intersection_area", "exception": type(ex).__name__, "msg": str(ex)[:100]}, size=n)
+        return
+    rep = ctx.model([f"F tia {line0}"])
+    ctx.case("tia", line0, n >= 2, sample={"n": n, "tia": impl})
+    missing = any(m.center is None for m in mods)
+    if isinstance(impl, str):
+        ctx.count("tia-missing-centre-asserts")
+        if not (missing and n >= 2):
+            ctx.spec_fail("operation-raised", inp, {"op": "total_intersection_area", "exception": "AssertionError"}, size=n)
+        if rep is not None and rep[0] != impl:
+            ctx.disagree("tia", inp, impl, rep[0], size=n)
+        return
+    if rep is not None:
+        if rep[0].startswith("err"):
+            ctx.disagree("tia", inp, impl, rep[0], size=n)
+        else:
+            v = hex2f(rep[0])
+            if not (v == impl or abs(v - impl) <= 1e-9 * max(1.0, abs(impl))):
+                ctx.disagree("tia", inp, impl, v, size=n)
+            elif v != impl:
+                ctx.drift += 1
+    if missing:
+        return
+    if not (impl >= 0 and math.isfinite(impl)):
+        ctx.spec_fail("tia:non-negative", inp, {"tia": impl}, size=n)
+    # every unordered pair once per order (independent summation, exact up to the rounding of the pair terms)
+    terms = []
+    rad = [math.sqrt(m.area() / math.pi) for m in mods]
+    for i in range(n):
+        for j in range(i + 1, n):
+            a = FR.circle_circle_intersection_area(mods[i].center, rad[i], mods[j].center, rad[j])
+            b = FR.circle_circle_intersection_area(mods[j].center, rad[j], mods[i].center, rad[i])
+            terms += [Fraction(a), Fraction(b)]
+    exact = float(sum(terms, Fraction(0)))
+    if abs(impl - exact) > 1e-9 * max(1.0, abs(exact)):
+        ctx.spec_fail("tia:each-pair-once-per-order", inp, {"tia": impl, "sum_over_pairs": exact}, size=n)
+    if n >= 2:
+        perm = list(range(n))
+        ctx.rng.shuffle(perm)
+        try:
+            d2 = build(permuted(inp, perm, centres(die)))
+            impl2 = float(FR.total_intersection_area(d2))
+        except Exception as ex:
+            ctx.count("tia-permuted-build-rejected:" + type(ex).__name__)
+            return
+        if abs(impl - impl2) > 1e-9 * max(1.0, abs(impl)):
+            ctx.spec_fail("tia:symmetric-in-module-order", inp, {"tia": impl, "permuted": impl2, "perm": perm}, size=n)
 
 
 def check_clamp(ctx: Ctx) -> None:
@@ -666,7 +876,10 @@ def run(ctx: Ctx) -> None:
                 "model compared for <= 3 iterations; `clamp` = scalar clamp incl. NaN/inf; `argmin` = the selection loop on cost lists "
                 "incl. inf/NaN; `layout-kappa0` = kappa = 0 (outside the property): same exception class as the model; `hashseed` = layout and force_algorithm on "
                 "instances with nets of arity 3..6 and 2-3 equal coincident modules, run in-process and in 5 interpreter processes with "
-                "PYTHONHASHSEED 0..4: bit-identical centres required. Non-trivial = at least one movable module.")
+                "PYTHONHASHSEED 0..4: bit-identical centres required; `visualize` = layout (3/4) / force_algorithm (1/4) with visualize set, 0..9 iterations, every frame and "
+                "the result vs the model, result bit-identical to the plain run, real get_floorplan_plot on ~1/4 of the cases; `tia` = total_intersection_area at arbitrary states "
+                "(15% with a missing centre, 30% with chains of coincident / tangent discs) vs the model, non-negative, every unordered pair once per order (exact sum of the pair terms), "
+                "same total for a shuffled module order; 1/7 of the long runs and 1/6 of the force runs with verbose=True. Non-trivial = at least one movable module.")
     ctx.assumptions += [
         "kappa > 0 (kappa = 0 divides by zero) and at least one module",
         "'every centre inside the die': a MOVABLE module is inside after >= 1 iteration whatever its start (out-of-die and negative "
@@ -687,6 +900,9 @@ def run(ctx: Ctx) -> None:
             inp["iters"] = 0
         if rng.random() < 0.05:
             inp["kappa"] = 0.0  # excluded by the property; the model must raise where Python does
+        elif rng.random() < 0.03:
+            inp["kappa"] = -inp["kappa"]  # a negative spring constant (attraction pushes apart): nothing raises, the clamp still holds
+            ctx.count("negative-kappa")
         inp["stream"] = "layout"
         ctx.count(f"layout-iters-{min(inp['iters'], 2)}{'+' if inp['iters'] >= 2 else ''}")
         ctx.count(f"modules-{len(inp['mods'])}")
@@ -697,6 +913,7 @@ def run(ctx: Ctx) -> None:
         inp["kappa"] = rng.choice(KAPPAS) if rng.random() < 0.3 else round(rng.uniform(0.05, 3.0), 3)
         inp["iters"] = rng.randint(6, 30 if ctx.tier == "quick" else 100)
         inp["stream"] = "long"
+        inp["verbose"] = i % 7 == 2
         check_long_run(ctx, inp)
     for i in range(ctx.n(50, 300)):
         inp = gen_lone(rng) if rng.random() < 0.12 else gen_instance(rng, big=False)
@@ -706,7 +923,36 @@ def run(ctx: Ctx) -> None:
                 m["center"] = [1.0, 1.0]
         inp["iters"] = rng.choice([1, 1, 2, 3, 5, 8, 12])
         inp["stream"] = "force"
+        inp["verbose"] = i % 6 == 1
         check_force(ctx, inp, corr=inp["iters"] <= 3)
+    for i in range(ctx.n(70, 600)):
+        inp = gen_lone(rng) if rng.random() < 0.08 else gen_instance(rng, big=False)
+        inp["kappa"] = rng.choice(KAPPAS) if rng.random() < 0.5 else round(rng.uniform(0.05, 3.0), 3)
+        inp["iters"] = rng.choice([0, 0, 1, 1, 2, 3, 5, 9])
+        inp["vis_force"] = rng.random() < 0.25
+        if inp["vis_force"]:
+            inp["iters"] = rng.choice([0, 1, 2, 3])
+            inp["centers"] = [c if c is not None else "keep" for c in inp["centers"]]
+            for m in inp["mods"]:
+                if m["kind"] == "soft" and m.get("center") is None:
+                    m["center"] = [1.0, 1.0]
+        inp["stream"] = "visualize"
+        inp["real_plot"] = (i % 5 == 0 or i < 4) and inp["iters"] <= 3  # ~0.07 s per frame
+        check_visualize(ctx, inp, real_plot=inp["real_plot"])
+    for i in range(ctx.n(120, 1500)):
+        inp = gen_lone(rng) if rng.random() < 0.05 else gen_instance(rng, big=ctx.tier != "quick")
+        if rng.random() < 0.85:  # every module with a centre (the state after any layout)
+            inp["centers"] = [c if c is not None else [rng.uniform(0, inp["W"]), rng.uniform(0, inp["H"])] for c in inp["centers"]]
+            for m in inp["mods"]:
+                if m["kind"] == "soft" and m.get("center") is None:
+                    m["center"] = [1.0, 1.0]
+        if rng.random() < 0.3:  # discs next to tangency / coincident / nested: the overlap terms themselves are the delicate part
+            cs = inp["centers"]
+            for k in range(1, len(cs)):
+                if isinstance(cs[k], list) and isinstance(cs[k - 1], list) and rng.random() < 0.5:
+                    cs[k] = [cs[k - 1][0] + rng.choice([0.0, 1e-9, 0.5, 1.0]), cs[k - 1][1]]
+        inp["stream"] = "tia"
+        check_tia(ctx, inp)
     check_hash_seeds(ctx, [gen_symmetric(rng) for _ in range(ctx.n(14, 80))])
 
 
@@ -720,6 +966,12 @@ def replay(ctx: Ctx, body: dict) -> None:
         print("clamp model reply:", rep)
         return
     s = inp.get("stream", "layout")
+    if s == "visualize":
+        check_visualize(ctx, inp, real_plot=inp.get("real_plot", False))
+        return
+    if s == "tia":
+        check_tia(ctx, inp)
+        return
     if s == "layout":
         check_layout_corr(ctx, inp)
         inp2 = dict(inp)
